@@ -14,6 +14,9 @@ the point set of a permutation and to the centres of the cells of a shading.  Su
   all_syms    Perm.all_syms / MeshPatt.all_syms == the orbit, duplicate-free
   sets        all_symmetry_sets == orbit of the set; the seven *_set helpers; lex_min == smallest
               orbit member and constant on the orbit; for several input container kinds
+  scale       perm_ops / mesh_ops / all_syms / sets / equiv again on a sparse, fully enumerated
+              family of long structured permutations (lengths 7..12, 31..34, 255..258, 300) and
+              mixed-length sets containing one of them, in several container kinds
   cli         `permtools lexmin <basis>` driven in-process (cli.main / parser / get_lex_min),
               stdout captured, 0- and 1-based spellings, several separators and orders
 """
@@ -744,6 +747,101 @@ def shard_sets(shard):
 
 
 # --------------------------------------------------------------------------------------------
+# scale : the same oracles on a sparse, fully enumerated family of LONG structured inputs
+# --------------------------------------------------------------------------------------------
+# Sizes straddle thresholds of the runtime that the small exhaustive domains never cross (set
+# tables of 8 / 32 slots, the small-int cache at 256, byte-sized buffers).  Violations are reported
+# under the sub-check whose oracle is used (perm_ops, mesh_ops, all_syms, sets, equiv), so replay
+# needs nothing new.
+
+SCALE_CELLS = None
+
+
+def scale_mesh_specs(n):
+    """Mesh patterns over the long shapes of length n: all shadings with <= 2 cells out of the
+    corner / edge / middle cells of the (n+1) x (n+1) grid listed here."""
+    m = n // 2
+    cells = [(0, 0), (n, n), (0, n), (n, 0), (1, n - 1), (m, m + 1), (n - 1, 2)]
+    out = []
+    for _, p in X.long_shapes(n):
+        for sub in R.subsets(cells, 2, 0):
+            out.append(("mesh", p, tuple(sorted(sub))))
+    return out
+
+
+def shard_scale_ops(shard):
+    """perm_ops + all_syms (+ used state up to length 34) on the long shapes of one length."""
+    n, = shard
+    lib = _lib()
+    part = Partial()
+    for _, p in X.long_shapes(n):
+        imgs = {s: R.apply_sym(s, p) for s in SYMS}
+        _ops_on_object(part, "perm_ops", {"perm": p}, lib.Perm(p), imgs, PERM_OPS, _apply_perm,
+                       case_perm_op, p)
+        if n <= 34:
+            try:
+                U = warm(lib.Perm(p))
+                _ops_on_object(part, "perm_ops", {"perm": p, "used": True}, U, imgs, PERM_OPS,
+                               _apply_perm, case_perm_op, p)
+            except Exception as exc:  # noqa
+                part.violation("perm_ops", {"perm": p, "used": True, "ops": ["reverse"]},
+                               {"exception while using the object in a search": repr(exc)})
+        size = case_all_syms(part, {"kind": "perm", "perm": p})
+        part.add(1, 1 if size and size > 1 else 0)
+    return part
+
+
+def shard_scale_mesh(shard):
+    n, lo, hi = shard
+    part = Partial()
+    for spec in scale_mesh_specs(n)[lo:hi]:
+        st = spec_struct(spec)
+        imgs = {s: R.apply_sym_mesh(s, st[0], st[1]) for s in SYMS}
+        try:
+            M = build_mesh(spec)
+        except Exception as exc:  # noqa
+            part.violation("mesh_ops", {"patt": spec, "ops": []}, {"constructor exception": repr(exc)})
+            continue
+        _ops_on_object(part, "mesh_ops", {"patt": spec}, M, imgs, MESH_OPS_CORE, _apply_mesh,
+                       case_mesh_op, st)
+        size = case_all_syms(part, {"kind": "mesh", "patt": spec})
+        part.add(1, 1 if size and size > 1 else 0)
+    return part
+
+
+SCALE_FORMS = ["list", "reversed", "set", "generator"]
+
+
+def shard_scale_sets(shard):
+    n, lo, hi = shard
+    part = Partial()
+    for B in X.scale_bases(n)[lo:hi]:
+        ref = (X.orbit_sets(B), X.lex_min(B))
+        for form in SCALE_FORMS:
+            size = case_sets(part, {"basis": B, "form": form}, ref)
+            part.add(1, 1 if (size > 1 and len(B) > 1) else 0)
+    return part
+
+
+def shard_scale_equiv(shard):
+    """Equivariance with long texts: all patterns of length <= 3 in the long shapes of length n."""
+    n, = shard
+    lib = _lib()
+    part = Partial()
+    patts = [p for k in range(0, 4) for p in R.perms(k)]
+    pimgs = [_images(lib.Perm(p), CANON_PERM) for p in patts]
+    upimgs = [_images(lib.Perm(p), CANON_PERM, used=True) for p in patts]
+    for _, t in X.long_shapes(n):
+        timgs = _images(lib.Perm(t), CANON_PERM)
+        utimgs = _images(lib.Perm(t), CANON_PERM, used=True)
+        for p, imgs, uimgs in zip(patts, pimgs, upimgs):
+            cnt = _equiv_pair(part, "equiv", case_equiv, p, t, imgs, timgs, uimgs, utimgs)
+            part.add(EVALS_PER_PAIR,
+                     EVALS_PER_PAIR if (cnt is not None and 0 < cnt < math.comb(n, len(p))) else 0)
+    return part
+
+
+# --------------------------------------------------------------------------------------------
 # cli : permtools lexmin
 # --------------------------------------------------------------------------------------------
 
@@ -1021,6 +1119,32 @@ def run(ctx, only=None):
         ctx.bounds["sets"] = [{"sets": name, "count": len(POOLS[name]), "container kinds": forms}
                               for name, forms in plan]
         ctx.section("sets", evaluations=ctx.evals - e0, violations=ctx.nviol - v0)
+
+    if want("scale"):
+        e0, v0 = ctx.evals, ctx.nviol
+        sizes = sorted(X.SCALE_SIZES_QUICK + ([] if quick else X.SCALE_SIZES_MORE))
+        eq_sizes = [n for n in sizes if n <= (12 if quick else 34)]
+        ctx.pmap(shard_scale_ops, [(n,) for n in sizes])
+        shards = []
+        for n in sizes:
+            shards += chunked(n, len(scale_mesh_specs(n)), 60)
+        ctx.pmap(shard_scale_mesh, shards)
+        shards = []
+        for n in sizes:
+            shards += chunked(n, len(X.scale_bases(n)), 40 if n <= 34 else 12)
+        ctx.pmap(shard_scale_sets, shards)
+        ctx.pmap(shard_scale_equiv, [(n,) for n in eq_sizes])
+        ctx.bounds["scale"] = {
+            "lengths": sizes,
+            "long shapes": [name for name, _ in X.long_shapes(12)],
+            "perm_ops / all_syms": "every long shape x %d operations (used state up to length 34)" % len(PERM_OPS),
+            "mesh_ops / all_syms": "every long shape x shadings of <= 2 of 7 corner/edge/middle cells x %d operations" % len(MESH_OPS_CORE),
+            "sets": "long shape alone; + every 1- or 2-subset of %d short perms (lengths 1..4; of %d "
+                    "short perms for lengths > 12); + one perm of each length 1..5; given as %s"
+                    % (len(X.SHORT_POOL), len(X.SHORT_POOL_SMALL), SCALE_FORMS),
+            "equiv": "all patterns of length <= 3 in every long shape of length %s, 8 symmetries, fresh and used" % eq_sizes,
+        }
+        ctx.section("scale", evaluations=ctx.evals - e0, violations=ctx.nviol - v0)
 
     if want("cli"):
         e0, v0 = ctx.evals, ctx.nviol
